@@ -23,6 +23,7 @@ CLAIMED = {
  "C09": dict(text="Every sequential history (within the bound) in which a handle becomes stale through another handle's additions/compactions/expiry, followed by every kind of write attempt through the stale handle: error class, unchanged directory, refreshed handle, fresh update index and successful retry are asserted.", ref="5/C09", note=FSNOTE),
  "C10": dict(text="A reader handle reloads and scans while writers add and compact, for every schedule within the context bound: every scan must succeed and show one committed snapshot (all of a transaction or none of it).", ref="5/C10", note=FSNOTE),
  "C16": dict(text="Residue check at quiescence over the concurrent scenarios of C04 and over sequential failure paths (failing write function, rejected limits, stale Add, empty Add, Clean/Close on empty and non-empty stacks and after another process was abandoned mid-Add): the directory holds exactly tables.list and the tables it names, and listed tables are never removed.", ref="5/C16", note=FSNOTE),
+ "C19": dict(text="Sufficient frame condition decided over all paths: everything reachable from the shared Reader / Merged (memory- and file-backed) is marked shared, a mixed read workload with a symbolic lookup key is run twice, and any store, map update, in-place append or copy into shared state, or non-positional use of a shared descriptor, is a violation (unless under a mutex that is part of the shared state). No shared write on any path implies no data race between concurrent readers and interleaving-independent results; goroutine schedules themselves are not explored. Counterexamples are confirmed by running the two calls in two goroutines under the Go race detector.", ref="5/C19", note=FSNOTE),
  "C18": dict(text="Every decoder entry point is run on an arbitrary (fully symbolic) buffer of bounded length; index/slice/nil/divide/allocation panics and step-budget overruns are implicit assertions decided by z3 on every path. Hostile deflate streams and longer files are outside the bound.", ref="5/C18"),
 }
 NOT_YET = "check not built yet in this session (work in progress); planned per DESIGN.md section 5"
